@@ -421,6 +421,23 @@ func C09(run *core.Run) {
 				pool = append(pool, corpusFile{fmt.Sprintf("gen#%d", i), []byte(genXMLDoc(r, map[string]int{}))})
 			}
 		}
+		if l.name == "json" {
+			// every JSON number lexeme of up to six characters over a small alphabet, 40 to a document
+			var nums [][]byte
+			enumLexemes(6, func(lex []byte) {
+				if isJSONNumber(lex) {
+					nums = append(nums, append([]byte{}, lex...))
+				}
+			})
+			for i := 0; i < len(nums); i += 40 {
+				end := i + 40
+				if end > len(nums) {
+					end = len(nums)
+				}
+				doc := append([]byte("["), bytes.Join(nums[i:end], []byte(","))...)
+				pool = append(pool, corpusFile{fmt.Sprintf("numbers#%d", i/40), append(doc, ']')})
+			}
+		}
 		for ci := range l.configs {
 			for _, f := range pool {
 				jobs = append(jobs, job{l, ci, f.Name, f.Data, strings.HasPrefix(f.Name, "gen#")})
